@@ -297,7 +297,93 @@ Section RbPtr.
         end
     end.
 
-  (* ---- fix_remove (rbtree.hpp:376-463); the tail call fix_remove(parent) consumes fuel *)
+  (* ---- fix_remove (rbtree.hpp:376-463); the tail call fix_remove(parent) consumes fuel.
+     The body is cut into two definitions at the comment "now s is the (black) sibling" only to keep the refinement
+     proof readable; [fix_remove] below is their composition in source order. *)
+  (* lines 383-410: rotate so that our node has a black sibling; returns the heap and the sibling [s] *)
+  Definition fix_remove_sibling (s : pstate) (n parent : N) : pres (pstate * N) :=
+    if oeqb (get_left s parent) (Some n) then
+      match get_right s parent with
+      | None => PAssert 386
+      | Some x =>
+          LET s <- (if ceqb (get_color s x) (Some Red) then
+                     LET s <- rotateLeft s x IN
+                     if negb (oeqb (Some n) (get_left s parent)) then PAssert 390 else
+                     let s := set_color s parent (Some Red) in
+                     POk (set_color s x (Some Black))
+                   else POk s) IN
+          match get_right s parent with Some sb => POk (s, sb) | None => PUB 396 end
+      end
+    else
+      if negb (oeqb (get_right s parent) (Some n)) then PAssert 398 else
+      match get_left s parent with
+      | None => PAssert 399
+      | Some x =>
+          LET s <- (if ceqb (get_color s x) (Some Red) then
+                     LET s <- rotateRight s x IN
+                     if negb (oeqb (Some n) (get_right s parent)) then PAssert 403 else
+                     let s := set_color s parent (Some Red) in
+                     POk (set_color s x (Some Black))
+                   else POk s) IN
+          match get_left s parent with Some sb => POk (s, sb) | None => PUB 409 end
+      end.
+
+  (* lines 412-462; [again] is the tail call fix_remove(parent) *)
+  Definition fix_remove_rest (again : pstate -> N -> pres pstate) (s : pstate) (n parent sb : N) : pres pstate :=
+    if p_isBlack s (get_left s sb) && p_isBlack s (get_right s sb) then
+      if ceqb (get_color s parent) (Some Black) then
+        let s := set_color s sb (Some Red) in
+        again s parent
+      else
+        let s := set_color s parent (Some Black) in
+        POk (set_color s sb (Some Red))
+    else
+      (* now at least one of s children is red *)
+      let parent_color := get_color s parent in
+      if oeqb (get_left s parent) (Some n) then
+        (* rotate so that get_right(s) is red *)
+        LET ssb <- (if p_isRed s (get_left s sb) && p_isBlack s (get_right s sb) then
+                     match get_left s sb with
+                     | None => PUB 429
+                     | Some child =>
+                         LET s <- rotateRight s child IN
+                         let s := set_color s sb (Some Red) in
+                         let s := set_color s child (Some Black) in
+                         POk (s, child)
+                     end
+                   else POk (s, sb)) IN
+        let '(s, sb) := ssb in
+        if negb (p_isRed s (get_right s sb)) then PAssert 437 else
+        LET s <- rotateLeft s sb IN
+        let s := set_color s parent (Some Black) in
+        let s := set_color s sb parent_color in
+        match get_right s sb with
+        | None => PUB 442
+        | Some far => POk (set_color s far (Some Black))
+        end
+      else
+        if negb (oeqb (get_right s parent) (Some n)) then PAssert 444 else
+        (* rotate so that get_left(s) is red *)
+        LET ssb <- (if p_isRed s (get_right s sb) && p_isBlack s (get_left s sb) then
+                     match get_right s sb with
+                     | None => PUB 448
+                     | Some child =>
+                         LET s <- rotateLeft s child IN
+                         let s := set_color s sb (Some Red) in
+                         let s := set_color s child (Some Black) in
+                         POk (s, child)
+                     end
+                   else POk (s, sb)) IN
+        let '(s, sb) := ssb in
+        if negb (p_isRed s (get_left s sb)) then PAssert 456 else
+        LET s <- rotateRight s sb IN
+        let s := set_color s parent (Some Black) in
+        let s := set_color s sb parent_color in
+        match get_left s sb with
+        | None => PUB 461
+        | Some far => POk (set_color s far (Some Black))
+        end.
+
   Fixpoint fix_remove (fuel : nat) (s : pstate) (n : N) : pres pstate :=
     match fuel with
     | O => POutOfFuel
@@ -306,87 +392,9 @@ Section RbPtr.
       match get_parent s n with
       | None => POk s
       | Some parent =>
-        (* rotate so that our node has a black sibling; [sb] = the sibling *)
-        LET ssb <-
-          (if oeqb (get_left s parent) (Some n) then
-             match get_right s parent with
-             | None => PAssert 386
-             | Some x =>
-                 LET s <- (if ceqb (get_color s x) (Some Red) then
-                            LET s <- rotateLeft s x IN
-                            if negb (oeqb (Some n) (get_left s parent)) then PAssert 390 else
-                            let s := set_color s parent (Some Red) in
-                            POk (set_color s x (Some Black))
-                          else POk s) IN
-                 match get_right s parent with Some sb => POk (s, sb) | None => PUB 396 end
-             end
-           else
-             if negb (oeqb (get_right s parent) (Some n)) then PAssert 398 else
-             match get_left s parent with
-             | None => PAssert 399
-             | Some x =>
-                 LET s <- (if ceqb (get_color s x) (Some Red) then
-                            LET s <- rotateRight s x IN
-                            if negb (oeqb (Some n) (get_right s parent)) then PAssert 403 else
-                            let s := set_color s parent (Some Red) in
-                            POk (set_color s x (Some Black))
-                          else POk s) IN
-                 match get_left s parent with Some sb => POk (s, sb) | None => PUB 409 end
-             end) IN
+        LET ssb <- fix_remove_sibling s n parent IN
         let '(s, sb) := ssb in
-        if p_isBlack s (get_left s sb) && p_isBlack s (get_right s sb) then
-          if ceqb (get_color s parent) (Some Black) then
-            let s := set_color s sb (Some Red) in
-            fix_remove k s parent
-          else
-            let s := set_color s parent (Some Black) in
-            POk (set_color s sb (Some Red))
-        else
-          (* now at least one of s children is red *)
-          let parent_color := get_color s parent in
-          if oeqb (get_left s parent) (Some n) then
-            (* rotate so that get_right(s) is red *)
-            LET ssb <- (if p_isRed s (get_left s sb) && p_isBlack s (get_right s sb) then
-                         match get_left s sb with
-                         | None => PUB 429
-                         | Some child =>
-                             LET s <- rotateRight s child IN
-                             let s := set_color s sb (Some Red) in
-                             let s := set_color s child (Some Black) in
-                             POk (s, child)
-                         end
-                       else POk (s, sb)) IN
-            let '(s, sb) := ssb in
-            if negb (p_isRed s (get_right s sb)) then PAssert 437 else
-            LET s <- rotateLeft s sb IN
-            let s := set_color s parent (Some Black) in
-            let s := set_color s sb parent_color in
-            match get_right s sb with
-            | None => PUB 442
-            | Some far => POk (set_color s far (Some Black))
-            end
-          else
-            if negb (oeqb (get_right s parent) (Some n)) then PAssert 444 else
-            (* rotate so that get_left(s) is red *)
-            LET ssb <- (if p_isRed s (get_right s sb) && p_isBlack s (get_left s sb) then
-                         match get_right s sb with
-                         | None => PUB 448
-                         | Some child =>
-                             LET s <- rotateLeft s child IN
-                             let s := set_color s sb (Some Red) in
-                             let s := set_color s child (Some Black) in
-                             POk (s, child)
-                         end
-                       else POk (s, sb)) IN
-            let '(s, sb) := ssb in
-            if negb (p_isRed s (get_left s sb)) then PAssert 456 else
-            LET s <- rotateRight s sb IN
-            let s := set_color s parent (Some Black) in
-            let s := set_color s sb parent_color in
-            match get_left s sb with
-            | None => PUB 461
-            | Some far => POk (set_color s far (Some Black))
-            end
+        fix_remove_rest (fix_remove k) s n parent sb
       end
     end.
 
@@ -511,6 +519,8 @@ Arguments insert_loop {elt annot} less agg aeqb ek k fuel s node current.
 Arguments p_insert {elt annot} less agg aeqb ek fuel s node.
 Arguments rightmost_loop {annot} k s current.
 Arguments p_insert_before {elt annot} agg aeqb ek fuel s before node.
+Arguments fix_remove_sibling {elt annot} agg aeqb ek s n parent.
+Arguments fix_remove_rest {elt annot} agg aeqb ek again s n parent sb.
 Arguments fix_remove {elt annot} agg aeqb ek fuel s n.
 Arguments reset_links {annot} s node.
 Arguments remove_half_leaf {elt annot} agg aeqb ek fuel s node child.
